@@ -207,7 +207,7 @@ def structural(suite, prop):
     target, claim, bound = STRUCT[suite]
     if recs is None or not os.path.exists(exe):
         return [], {"kind": "bounded structural stand-in", "skipped": err or "binary missing"}
-    p = subprocess.run([exe, suite], capture_output=True, text=True, timeout=900)
+    p = subprocess.run([exe, suite], capture_output=True, text=True, timeout=3000)
     lines = p.stdout.strip().split("\n")
     head = json.loads(lines[0]) if lines and lines[0].startswith("{") else {"cases": 0, "failures": -1}
     fails = [l.split("\t") for l in lines[1:] if l.startswith("FAIL\t")]
@@ -218,6 +218,9 @@ def structural(suite, prop):
                      "message": "%d of %d enumerated inputs expand to something the statement excludes (%s)" % (head["failures"], head["cases"], target),
                      "failing_input": {"engine": "native replay of the real derive", "derive_input": ex[1], "what_is_wrong": ex[2][:1500], "more": [f[1] for f in fails[1:10]]},
                      "rendered": "\n".join(lines[:11])[:4000], "where": [], "unit": "replay"})
+    import os as _os
+    if _os.environ.get("STANDIN_TIER") == "thorough" and suite == "c03":
+        bound += "; THOROUGH tier: 3 more trees (7 fields, depth 5, repeated segment names a / a.a / aa) with all 5,040 orders each"
     return viol, {"kind": "bounded structural stand-in (testing, not proof)", "covers": target, "claim": claim, "bound": bound, "cases": head["cases"], "failures": head["failures"]}
 
 
@@ -235,7 +238,7 @@ def metamorphic(suite, prop):
     parts = ["c14_members", "c14_enum_fields", "c14_variants", "c14_traits"] if suite == "c14" else [suite]
     import concurrent.futures
     with concurrent.futures.ThreadPoolExecutor(max_workers=4) as ex_:
-        outs = list(ex_.map(lambda s_: subprocess.run([exe, s_], capture_output=True, text=True, timeout=900).stdout, parts))
+        outs = list(ex_.map(lambda s_: subprocess.run([exe, s_], capture_output=True, text=True, timeout=3000).stdout, parts))
     head = {"cases": 0, "failures": 0, "both_expand": 0}
     lines = []
     for o in outs:
@@ -255,6 +258,9 @@ def metamorphic(suite, prop):
                      "message": "%d of %d input pairs that must expand identically do not (%s)" % (head["failures"], head["cases"], target),
                      "failing_input": {"engine": "native replay of the real derive", "input_a": ex[1], "input_b": ex[2], "difference": ex[3][:1500], "more": [f[1] for f in fails[1:10]]},
                      "rendered": "\n".join(lines[:11])[:4000], "where": [], "unit": "replay"})
+    import os as _os
+    if _os.environ.get("STANDIN_TIER") == "thorough" and suite == "c14":
+        bound += "; THOROUGH tier: 6 struct fields, 5 variants, 5 trait instructions"
     return viol, {"kind": "bounded metamorphic stand-in (testing, not proof)", "covers": target, "claim": claim, "bound": bound, "cases": head["cases"], "both_inputs_expand": head.get("both_expand"), "failures": head["failures"]}
 
 
@@ -278,6 +284,8 @@ def model_conformance():
 
 
 def run(prop, tier):
+    import os
+    os.environ["STANDIN_TIER"] = "thorough" if tier == "thorough" else "quick"   # read by the stand-in binaries: larger bounds
     r = _run(prop, tier)
     rep, bad = model_conformance()
     r.setdefault("report", {})["token_model_conformance"] = rep
